@@ -175,6 +175,18 @@ def judge_config(ctx, cfg, LOG):
         ctx.check('backend module lazily imported', (len(imported) == 1) == bool(load) and
                   ((mod in sys.modules) == bool(load)) and b.loaded == bool(load),
                   'import-at-construction' if not load else 'load-did-not-import', case, imported)
+        # sometimes the Backend object goes through copy / deepcopy / pickle first (an unloaded one: a module
+        # object can be neither deep-copied nor pickled); the copy is the same configuration
+        cv = (sum(map(len, map(str, cfg))) + len(mod)) % 5
+        if cv == 1:
+            import copy
+            b = copy.copy(b)
+        elif cv == 2 and not load:
+            import copy
+            b = copy.deepcopy(b)
+        elif cv == 3 and not load:
+            import pickle
+            b = pickle.loads(pickle.dumps(b))
         # the call
         port_name = 'GIVEN' if given else None
         opts = {}
